@@ -44,7 +44,9 @@ CFG = {'streams': [{'name': 'C07',
                 'parse_render_expr (round trip incl. all locations for all 14 expression forms under arbitrary layouts: gaps, trailing commas, '
                 'literal spellings) + layout_irrelevant_expr; parse_render_stmt and parse_render_block (round trip for all 11 statement forms, '
                 'attribute lists, condition lists, if/elif/else location bookkeeping, scan arms numbered in order of appearance, blocks nested to '
-                'any depth); unicode_sane_from_tables. Props/C05parse.v: parse_total, parse_never_out_of_fuel (fuel S(length text)), with witnesses '
+                'any depth); parse_render_file (whole files: globals with quantifier/default, inherit, shorthands, stanzas with opaque query text up to the '
+                'first `{` outside strings/comments, every location, scan arms numbered in order of appearance; result = file_of_items of the located '
+                'items, patterns in order); unicode_sane_from_tables. Props/C05parse.v: parse_total, parse_never_out_of_fuel (fuel S(length text)), with witnesses '
                 'that the two tree-sitter-dependent panic sites are reachable if tree-sitter misbehaves. Correspondence: the real parser under '
                 'catch_unwind and a wall clock vs parse of Model/Parser.v (vm_compute) with tree-sitter, the regex crate and the Unicode tables as '
                 'per-case oracle tables keyed by what the MODEL asks for (byte span of its own skip_query, merged query source, decoded scan '
@@ -57,14 +59,13 @@ CFG = {'streams': [{'name': 'C07',
                  'the Display text of `node` statements is not produced by the parser and is erased on both sides',
                  'HashSet/HashMap contents (inherited names, shorthands) are compared in sorted order',
                  'replay: the record holds the text and (AST-directed cases) the Debug text of the intended AST, which is compared again on replay'],
- 'partial': ['parse_render_file (not proved): the round trip of parse_into_file over whole files - the loop over global / inherit / attribute / '
-             'stanza items (parse_global with its one-character quantifier, parse_shorthand, skip_query + parse_query with the tree-sitter oracle, '
-             'the merged query) and hence the end-to-end statement parse (render L file) = file. Proved below the items: the block of a stanza '
-             '(parse_render_block), every statement, attribute, condition and expression. The full statement is kept as a comment in '
-             'Props/C07.v; the file level is TESTED on every run by stream C07 (AST incl. stanza/global/shorthand locations vs the model and vs '
-             'the AST the generator wrote).',
-             'layouts of the theorems are slightly narrower than what the parser accepts: a gap is forced non-empty between a token ending and a '
-             'token starting with an identifier character (so `(f)x` or `for x in[1]`-style merges that the parser would still read correctly '
-             'are not claimed); the correspondence stream does generate them',
+ 'partial': ['none of the listed theorems is partial: parse_render_file is proved for whole files. Stated limits of its hypotheses (not weakenings of the '
+             'parser model): (a) layouts of the theorems are slightly narrower than what the parser accepts - a gap is forced non-empty between a '
+             'token ending and a token starting with an identifier character, so merges that the parser would still read correctly (`(f)x`, '
+             '`forx`, `global x` directly followed by the next item when it cannot merge) are not claimed; the correspondence stream does generate '
+             'them; (b) a global without quantifier is written with exactly one of space/tab/LF/CR after its name; (c) shorthand names may repeat '
+             '(the result is then the map file_of_items computes: the later definition wins), the `vtext` of node statements (Display text, not '
+             'parser output) is [] in the model and erased in the comparison',
              'hypothesis UnicodeSane (whitespace characters are not identifier characters) is about the external Unicode tables; it is checked '
-             'on the table of every correspondence case (uni_sane, a violation is ORACLE_MISS)']}
+             'on the table of every correspondence case (uni_sane, a violation is ORACLE_MISS); hypotheses queries_ok / x_merged of '
+             'parse_render_file are what tree-sitter answers, recorded per case']}
